@@ -153,3 +153,74 @@ impl Hist {
         format!("{{{}}}", parts.join(","))
     }
 }
+
+/// Generate parser source for `grammar_text` with the real lalrpop (`Configuration::process_file`)
+/// in `dir` (file `<stem>.lalrpop` → `<stem>.rs`). Returns the generated text or the error.
+/// stdout/stderr diagnostics of lalrpop go to the process' own stdout/stderr.
+pub fn generate_parser(
+    dir: &std::path::Path,
+    stem: &str,
+    grammar_text: &str,
+    configure: impl FnOnce(&mut lalrpop::Configuration),
+) -> Result<String, String> {
+    std::fs::create_dir_all(dir).map_err(|e| e.to_string())?;
+    let src = dir.join(format!("{stem}.lalrpop"));
+    let out = dir.join(format!("{stem}.rs"));
+    let _ = std::fs::remove_file(&out);
+    std::fs::write(&src, grammar_text).map_err(|e| e.to_string())?;
+    let mut cfg = lalrpop::Configuration::new();
+    cfg.force_build(true).log_quiet();
+    configure(&mut cfg);
+    match std::panic::catch_unwind(std::panic::AssertUnwindSafe(|| cfg.process_file(&src))) {
+        Ok(Ok(())) => std::fs::read_to_string(&out).map_err(|e| e.to_string()),
+        Ok(Err(e)) => Err(format!("error: {e}")),
+        Err(p) => {
+            let msg = p
+                .downcast_ref::<String>()
+                .cloned()
+                .or_else(|| p.downcast_ref::<&str>().map(|s| s.to_string()))
+                .unwrap_or_default();
+            Err(format!("panic: {msg}"))
+        }
+    }
+}
+
+/// Build a scratch binary crate that depends on /repo/lalrpop-util by path.
+/// `files` are (path relative to the crate root, content), e.g. ("src/main.rs", …), ("src/g1.rs", …).
+/// All scratch crates share one target directory (so lalrpop-util and regex are compiled once).
+/// Returns the executable path, or rustc's stderr on a compile error.
+pub fn build_scratch_crate(
+    dir: &std::path::Path,
+    name: &str,
+    files: &[(String, String)],
+) -> Result<std::path::PathBuf, String> {
+    std::fs::create_dir_all(dir.join("src")).map_err(|e| e.to_string())?;
+    let cargo_toml = format!(
+        "[package]\nname = \"{name}\"\nversion = \"0.0.0\"\nedition = \"2021\"\n\n[workspace]\n\n\
+         [dependencies]\nlalrpop-util = {{ path = \"/repo/lalrpop-util\", features = [\"lexer\", \"unicode\", \"std\"] }}\n\n\
+         [profile.dev]\nopt-level = 0\ndebug = false\nincremental = false\n"
+    );
+    std::fs::write(dir.join("Cargo.toml"), cargo_toml).map_err(|e| e.to_string())?;
+    let _ = std::fs::copy("/verif/harness/Cargo.lock", dir.join("Cargo.lock"));
+    for (rel, content) in files {
+        let p = dir.join(rel);
+        if let Some(parent) = p.parent() {
+            std::fs::create_dir_all(parent).map_err(|e| e.to_string())?;
+        }
+        std::fs::write(&p, content).map_err(|e| e.to_string())?;
+    }
+    let target = std::env::var("VERIF_SCRATCH_TARGET")
+        .unwrap_or_else(|_| "/verif/harness/target/scratch".to_string());
+    let out = std::process::Command::new("cargo")
+        .args(["build", "--offline", "--quiet"])
+        .current_dir(dir)
+        .env("CARGO_NET_OFFLINE", "true")
+        .env("CARGO_TARGET_DIR", &target)
+        .env("RUSTFLAGS", "-Awarnings")
+        .output()
+        .map_err(|e| e.to_string())?;
+    if !out.status.success() {
+        return Err(String::from_utf8_lossy(&out.stderr).into_owned());
+    }
+    Ok(std::path::Path::new(&target).join("debug").join(name))
+}
